@@ -170,9 +170,90 @@ def run(chk: harness.Check):
             if k.startswith("sink:") and k[5:] in ("error", "warning") and c["sev"] in ("error", "warning"):
                 chk.expect(k[5:] == c["sev"], "C07.D3-severity", key, where,
                            f"a {c['sev']} diagnostic \"{c['msg'][:60]}\" is sent to the `{k[5:]}` sink", sample=f"{where}: {c['sev']} → {k[5:]} sink")
+    d2b_returned_diagnostics(chk, F)
     d4_short_circuit(chk, F)
     d5_validity(chk, F)
     d6_zero_den(chk, F)
+
+
+DROPPERS = ("Result::<T, E>::ok", "Result::<T, E>::unwrap_or", "Result::<T, E>::unwrap_or_default", "Result::<T, E>::unwrap_or_else", "Result::<T, E>::is_ok",
+            "Result::<T, E>::is_err", "std::mem::drop", "Result::<T, E>::is_ok_and", "Result::<T, E>::iter", "Result::<T, E>::and")
+
+
+def err_payload_flows(f, t):
+    """Does the Err(SourceDiag) payload of the call result reach a sink, a builder, an aggregate or the return value?
+    Follows whole-value moves and uses of the `as Err` projection; Result::ok()/unwrap_or()/is_ok() drop the payload."""
+    start = t["dest"]
+    if start["p"]:
+        return {"stored"}
+    seen = set()
+    work = [start["l"]]
+    kinds = set()
+    while work:
+        l = work.pop()
+        if l in seen:
+            continue
+        seen.add(l)
+        if l == 0:
+            kinds.add("returned")
+            continue
+        for i, j, s in f.iter_stmts():
+            if s["k"] != "assign":
+                continue
+            for op in rvalue_operands(s["rv"]) + ([{"copy": s["rv"]["place"]}] if "place" in s["rv"] and s["rv"]["k"] in ("ref",) else []):
+                p = op.get("move") or op.get("copy")
+                if p is None or p["l"] != l:
+                    continue
+                projs = [x for x in p["p"] if x != "*"]
+                if any(x.startswith("as Ok") for x in projs):
+                    continue                               # the success payload: not the diagnostic
+                if any(x.startswith("as Err") for x in projs):
+                    kinds.add("taken")                     # the error payload is taken out (bound to a variable)
+                    work.append(s["place"]["l"])
+                else:
+                    work.append(s["place"]["l"])          # whole value / Option::Some / ControlFlow payload moved on
+        for b, tt in f.calls():
+            for a in tt.get("args", []):
+                p = a.get("move") or a.get("copy")
+                if p is None or p["l"] != l:
+                    continue
+                projs = [x for x in p["p"] if x != "*"]
+                ck = callee_key(tt) or ""
+                if projs and any(x.startswith("as Ok") for x in projs):
+                    continue
+                if any(ck.endswith(d) or ck.replace("std::result::", "").endswith(d) for d in DROPPERS):
+                    kinds.add("dropped:" + ck.rsplit("::", 1)[-1])
+                    continue
+                if ck in SINKS:
+                    kinds.add("sink")
+                elif not tt["dest"]["p"]:
+                    work.append(tt["dest"]["l"])
+    return kinds
+
+
+def d2b_returned_diagnostics(chk, F):
+    """A diagnostic returned as Err(SourceDiag) must not be dropped by the caller."""
+    n = 0
+    for k, f in sorted(F.funcs.items()):
+        if f.generated or f.crate != "cooklang":
+            continue
+        for b, t in f.calls():
+            ck = callee_key(t) or ""
+            g = F.funcs.get(ck)
+            if g is None or g.generated or not g.locals:
+                continue
+            rty = norm(g.locals[0].get("ty", ""))
+            if "error::SourceDiag" not in rty or "Result<" not in rty:
+                continue
+            n += 1
+            kinds = err_payload_flows(f, t)
+            good = {x for x in kinds if not x.startswith("dropped:")}
+            dropped = sorted(x for x in kinds if x.startswith("dropped:"))
+            ok = bool(good) and not dropped
+            chk.expect(ok, "C07.D2-returned-diagnostic", f"{region_of(k)}|{ck.rsplit('::', 1)[-1]}", f.where(b),
+                       f"the error diagnostic returned by {ck.rsplit('::', 1)[-1]}() is discarded in {region_of(k)} ({', '.join(dropped) or 'no use of the Err payload'}): "
+                       "the invalid construct would be accepted silently", sample=f"{f.where(b)}: Err(diag) of {ck.rsplit('::', 1)[-1]}() → {sorted(good)}")
+    chk.floor("C07.D2-returned-diagnostic", "calls returning Result<_, SourceDiag>", n, 8)
 
 
 def d4_short_circuit(chk, F):
